@@ -183,7 +183,7 @@ func (c *Canon) of(v ssa.Value) string {
 			case *ssa.FieldAddr:
 				return c.fieldOf(a.X, a.Field)
 			case *ssa.IndexAddr:
-				return "elem(" + c.Of(a.X) + ")"
+				return c.elemOf(a.X, a.Index)
 			}
 			return "*" + c.Of(x.X)
 		case token.NOT:
@@ -197,6 +197,25 @@ func (c *Canon) of(v ssa.Value) string {
 		}
 		return x.Op.String() + c.Of(x.X)
 	case *ssa.BinOp:
+		// the index of `for i := range s` (a phi starting at -1 that is incremented before the
+		// test) renders like the index of `for i := 0; i < len(s); i++`
+		if x.Op == token.ADD {
+			if k, ok := ConstInt(x.Y); ok && k == 1 {
+				if ph, ok := x.X.(*ssa.Phi); ok && len(ph.Edges) >= 2 {
+					nInit, nBack := 0, 0
+					for _, e := range ph.Edges {
+						if k0, ok := ConstInt(e); ok && k0 == -1 {
+							nInit++
+						} else if e == ssa.Value(x) {
+							nBack++
+						}
+					}
+					if _, named := c.PhiName[ph]; !named && nInit == 1 && nInit+nBack == len(ph.Edges) {
+						return "μ((@0 + 1)|0)"
+					}
+				}
+			}
+		}
 		return "(" + c.Of(x.X) + " " + x.Op.String() + " " + c.Of(x.Y) + ")"
 	case *ssa.Phi:
 		if n, ok := c.PhiName[x]; ok {
@@ -233,11 +252,11 @@ func (c *Canon) of(v ssa.Value) string {
 		return "&" + c.fieldOf(x.X, x.Field)
 	case *ssa.Field:
 		st := x.X.Type().Underlying().(*types.Struct)
-		return c.Of(x.X) + "." + st.Field(x.Field).Name()
+		return c.Of(x.X) + "." + FieldLabel(st, x.Field)
 	case *ssa.IndexAddr:
-		return "&elem(" + c.Of(x.X) + ")"
+		return "&" + c.elemOf(x.X, x.Index)
 	case *ssa.Index:
-		return "elem(" + c.Of(x.X) + ")"
+		return c.elemOf(x.X, x.Index)
 	case *ssa.Lookup:
 		return c.Of(x.X) + "[" + c.Of(x.Index) + "]"
 	case *ssa.Slice:
@@ -329,7 +348,39 @@ func (c *Canon) fieldOf(base ssa.Value, idx int) string {
 	if !ok {
 		return baseStr + ".?"
 	}
-	return baseStr + "." + st.Field(idx).Name()
+	return baseStr + "." + FieldLabel(st, idx)
+}
+
+// elemOf renders an element access: a constant index is kept (s[0]), any other index is
+// abstracted (elem(s): "some element", the loop variable's name and form do not matter).
+func (c *Canon) elemOf(x, idx ssa.Value) string {
+	if k, ok := ConstInt(idx); ok {
+		return fmt.Sprintf("%s[%d]", c.Of(x), k)
+	}
+	return "elem(" + c.Of(x) + ")"
+}
+
+// FieldLabel names a struct field in canonical expressions. Exported fields keep their name;
+// unexported fields are named by their type (and, among unexported fields of the same type, by
+// their ordinal), so that renaming a private field does not change any canonical form:
+// Table.cloned renders as ‹*html.Node›.
+func FieldLabel(st *types.Struct, idx int) string {
+	f := st.Field(idx)
+	if f.Exported() {
+		return f.Name()
+	}
+	k := 0
+	for i := 0; i < idx; i++ {
+		g := st.Field(i)
+		if !g.Exported() && types.Identical(g.Type(), f.Type()) {
+			k++
+		}
+	}
+	t := types.TypeString(f.Type(), shortQual)
+	if k == 0 {
+		return "‹" + t + "›"
+	}
+	return fmt.Sprintf("‹%s#%d›", t, k)
 }
 
 // constName maps a constant of a named (enum-like) type back to the name of the declared
@@ -389,6 +440,9 @@ func (c *Canon) call(x *ssa.Call) string {
 	name := "dyn:" + c.Of(cc.Value)
 	if callee != nil {
 		name = FuncName(callee)
+		if rn := RoleName(callee); rn != "" {
+			name = "@" + rn
+		}
 	} else if b, ok := cc.Value.(*ssa.Builtin); ok {
 		name = b.Name()
 	}
@@ -508,6 +562,15 @@ func (c *Canon) CondAtom(cond ssa.Value) (atom string, valWhenTrue bool) {
 				}
 			}
 			if k, isC := constIntOf(y); isC {
+				if sv, ok := lenOfString(x); ok {
+					// len(s) <= 0  <=>  s == ""   (lengths are never negative)
+					switch {
+					case (op == token.LEQ && k == 0) || (op == token.LSS && k == 1):
+						return c.Of(sv) + ` == ""`, pos
+					case (op == token.GTR && k == 0) || (op == token.GEQ && k == 1):
+						return c.Of(sv) + ` == ""`, !pos
+					}
+				}
 				xs := c.Of(x)
 				switch op {
 				case token.LEQ:
@@ -544,6 +607,17 @@ func (c *Canon) CondAtom(cond ssa.Value) (atom string, valWhenTrue bool) {
 				a, p2 := c.CondAtom(y)
 				return a, (p2 == bv) == pos
 			}
+			// len(v) == 0 / != 0: strings compare with "", everything else becomes len(v) <= 0
+			for _, pr := range [][2]ssa.Value{{x, y}, {y, x}} {
+				if k, isC := constIntOf(pr[1]); isC && k == 0 {
+					if sv, ok := lenOfString(pr[0]); ok {
+						return c.Of(sv) + ` == ""`, pos
+					}
+					if isLenCall(pr[0]) {
+						return c.Of(pr[0]) + " <= 0", pos
+					}
+				}
+			}
 			xs, ys := c.Of(x), c.Of(y)
 			_, xc := x.(*ssa.Const)
 			_, yc := y.(*ssa.Const)
@@ -556,6 +630,61 @@ func (c *Canon) CondAtom(cond ssa.Value) (atom string, valWhenTrue bool) {
 	return c.Of(v), pos
 }
 
+func isLenCall(v ssa.Value) bool {
+	call, ok := StripConv(v).(*ssa.Call)
+	if !ok {
+		return false
+	}
+	b, ok := call.Call.Value.(*ssa.Builtin)
+	return ok && b.Name() == "len" && len(call.Call.Args) == 1
+}
+
+// lenOfString: v is len(s) for a string s.
+func lenOfString(v ssa.Value) (ssa.Value, bool) {
+	if !isLenCall(v) {
+		return nil, false
+	}
+	arg := StripConv(v).(*ssa.Call).Call.Args[0]
+	if b, ok := arg.Type().Underlying().(*types.Basic); ok && b.Info()&types.IsString != 0 {
+		return arg, true
+	}
+	return nil, false
+}
+
 func constIntOf(v ssa.Value) (int64, bool) {
 	return ConstInt(StripConv(v))
+}
+
+// Resolve follows value-preserving conversions, phis resolved along the current path and
+// locals spilled by a defer to the defining value.
+func (c *Canon) Resolve(v ssa.Value) ssa.Value {
+	for i := 0; i < 64 && v != nil; i++ {
+		v = StripConv(v)
+		switch x := v.(type) {
+		case *ssa.Phi:
+			if _, named := c.PhiName[x]; !named && c.PhiEdge != nil {
+				if e, ok := c.PhiEdge[x]; ok {
+					v = e
+					continue
+				}
+			}
+		case *ssa.UnOp:
+			if x.Op == token.MUL {
+				if a, ok := x.X.(*ssa.Alloc); ok {
+					if s, ok := c.AllocVal[a]; ok {
+						v = s
+						continue
+					}
+				}
+			}
+		case *ssa.MakeInterface:
+			v = x.X
+			continue
+		case *ssa.ChangeInterface:
+			v = x.X
+			continue
+		}
+		return v
+	}
+	return v
 }
